@@ -987,6 +987,8 @@ def r36_matmul_index_maps(facts):
 def r37_conv_index_maps(facts):
     """CONV-KERNELS: im2col reads image[k, r*sr+m, c*sc+n] into row r*cols+c, column (k*frows+m)*fcols+n of the unrolled matrix, and the output transposition maps [windows, filters] to [filters, windows] (index polynomials compared in an exact algebra)"""
     c = Ctx("R37", facts, "convolution kernels: im2col gather / layout and output transposition as index polynomials")
+    from .inline import kernel_view
+    facts = kernel_view(facts)
     _unroll_kernel(facts, c)
     _transpose_kernel(facts, c)
     n = sum(1 for o in c.obs if o.key.split("@", 1)[1].split(":")[0] in ("unroll", "transpose"))
@@ -1551,6 +1553,8 @@ def _transpose_backward(facts, c):
 def r39_roll_adjoint_of_unroll(facts):
     """ROLL-ADJOINT: the routine used as the derivative of im2col reads unrolled element (row r*cols+c, column (k*frows+m)*fcols+n) and adds it to image element [k, r*sr+m, c*sc+n] - the same index pairs as im2col, transposed (div / mod decoding simplified symbolically under the loop ranges)"""
     c = Ctx("R39", facts, "roll_blocks (adjoint of im2col) uses exactly im2col's index pairs, transposed")
+    from .inline import kernel_view
+    facts = kernel_view(facts)
     unrolls = [b for b in facts.fns() if b.get("impl_self") == ARRAY and b.get("impl_trait_def") is None
                and (b.get("inputs") or []) == ["&" + ARRAY, "(usize, usize)", "(usize, usize)"]]
     rolls = [b for b in facts.fns() if b.get("impl_self") == ARRAY and b.get("impl_trait_def") is None
